@@ -3,5 +3,3 @@
 pub mod ledger;
 pub mod comps;
 pub mod gen_r5;
-pub mod sched_support;
-pub mod gen_sched;
